@@ -38,7 +38,9 @@ RULE = ('point sets from 10 families (tiny 0..3 points, random small integers wi
         'pixel_bounds integer/non-integer/narrower than a pixel, FITS without bounding box, mock JWST with several '
         'bounding boxes and without} x catalogs of 0..5 sources (integer, k+0.5, zero, large, dyadic, random, negative) '
         'x stepsize {None, positive, 0, negative} x {calc_bounding_polygon, _calc_chip_bounding_polygon}; sources of '
-        'correctors WITH a bounding box are placed in the pixel-centre range [lx+0.5, hx-0.5]; a chip case is '
+        'correctors WITH a bounding box are placed anywhere in the closed box: pixel-centre range, outer half-pixel '
+        'band, exactly on the edges of the box and of the shrunk box, one ulp beside them, and (one catalog in seven) '
+        'outside the box (counters chip:bb-coordinate:*); a chip case is '
         'non-trivial when the catalog is not empty and the rectangle is non-degenerate, or an exception is expected')
 ASSUMPTIONS = [
     'theorems are over an arbitrary linearly ordered field (sqrt parts over the reals); double rounding is '
@@ -50,8 +52,8 @@ ASSUMPTIONS = [
     'sky <-> plane maps (astropy.wcs, the ad-hoc rotation of RefCatalog) are used as fixed charts; the '
     'tangent-plane polygon of RefCatalog is read back through the rotation matrix recorded from the code',
     'NaN / infinite coordinates are outside the model',
-    'chip footprint: the model ends where the pixel border is handed to det_to_world; sources in the outer half-pixel '
-    'band of a bounding box are not generated (recorded observation, see c16_chipborder.band_probe); spherical '
+    'chip footprint: the model ends where the pixel border is handed to det_to_world; sources outside a gWCS '
+    'bounding box are generated only in catalogs of at most two sources (no sky coordinates there); spherical '
     'containment is not tested for footprints narrower than 1.5e-7 rad (spherical_geometry cannot decide it)',
 ]
 
@@ -977,7 +979,11 @@ def overlap_checks(ctx, a, b, label, bound=True):
         except Exception as e:
             ctx.oracle_fail(case, {'what': '_guarded_intersection_area raised (%s)' % nm, 'exc': repr(e)[:200]})
             return
-        if nf == 0 and abs(float(ga) - vals[nm]) > AREA_RTOL * abs(vals[nm]) + AREA_ATOL:
+        # (an internal consistency test, not a clause of the property: spherical_geometry computes the same
+        #  intersection twice here and its areas are reproducible only to about 1e-5 of the footprints involved -
+        #  0.0 against 1.6e-14 sr for footprints of 1.3e-9 sr was seen - so the floor scales with the footprints)
+        floor = AREA_ATOL + 1e-4 * min(area_of(a), area_of(b))
+        if nf == 0 and abs(float(ga) - vals[nm]) > AREA_RTOL * abs(vals[nm]) + floor:
             ctx.oracle_fail(case, {'what': '_guarded_intersection_area differs from intersection_area without failures',
                                    'guarded': float(ga), 'plain': vals[nm]})
     m = max(vals['ab'], vals['ba'])
